@@ -374,6 +374,9 @@ class Model:
         for rel in self.overlay:
             if rel not in paths and rel.startswith(PKG + '/'):
                 paths.append(rel)
+        from . import normalize
+        ref = _reference() if not os.environ.get('VERIF_NO_NORMALIZE') else None
+        parsed = []
         for rel in sorted(paths):
             if rel in self.overlay:
                 src = self.overlay[rel]
@@ -389,23 +392,24 @@ class Model:
                 name = name[:-9]
             elif name == '__init__':
                 name = ''
-            if _reference() is not None and not os.environ.get('VERIF_NO_NORMALIZE'):
+            if ref is not None:
                 # before any other normal form: bodies are compared as parsed
-                from . import normalize as _nz
-                for s_ in _nz.restore_function_names(tree, name, _reference()):
+                for s_ in normalize.restore_function_names(tree, name, ref):
                     self.inlined.append('function renamed relative to the reference tree, followed by its body: %s.%s' % (name, s_))
-                for s_ in _nz.restore_attribute_names(tree, name, _reference()):
+                for s_ in normalize.restore_attribute_names(tree, name, ref):
                     self.inlined.append('attribute renamed relative to the reference tree, followed through the bodies that use it: %s.%s' % (name, s_))
             tree = _CanonicalUpdates().visit(tree)
-            from . import normalize
             tree = normalize.default_idiom(tree)
             normalize.with_form(tree)
             normalize.search_loops(tree)
             normalize.unpack_form(tree)
             tree = normalize.small_forms(tree)
-            normalize.positional_calls(tree)
-            ref = _reference()
-            if ref is not None and not os.environ.get('VERIF_NO_NORMALIZE'):
+            parsed.append((rel, name, src, tree))
+        # arguments passed by keyword where the callee takes them by position: one table for the whole package
+        table = normalize.signature_table([t for (_r, _n, _s, t) in parsed])
+        for rel, name, src, tree in parsed:
+            normalize.positional_calls(tree, table)
+            if ref is not None:
                 from . import inline
                 for c in normalize.fold_new_constants(tree, ref['module_names'].get(name)):
                     self.inlined.append('constant %s.%s read through' % (name, c))
